@@ -214,3 +214,11 @@ Definition in_box (low high : list Q) (a : list (list Q)) : bool :=
   forallb (fun row => (length row =? length low) &&
                       forallb (fun p => Qle_bool (fst (fst p)) (snd p) && Qle_bool (snd p) (snd (fst p)))
                               (combine (combine low high) row)) a.
+
+(* ------------------------------------------------------------------ IPPO mask plumbing: model vs the real extract_action_masks *)
+(* masks are encoded as numbers (bit i = entry i of the flattened mask of that agent); obs: per policy group the stacked rows *)
+From Coq Require Import NArith.
+Definition optN_eqb (a b : option N) : bool :=
+  match a, b with Some x, Some y => N.eqb x y | None, None => true | _, _ => false end.
+Definition check_ippo_masks (ids : list agent) (infos : list (agent * N)) (obs : list (nat * list N)) : bool :=
+  forallb (fun p => list_eqb optN_eqb (ippo_masks ids infos (fst p)) (map Some (snd p))) obs.
